@@ -24,7 +24,7 @@ RULE = ('(a) the C03 history generator (minus queue/sorted-iteration calls Fanou
         '(key class, shard count, hash-seed pair) routing cells')
 DISTINCT = ('cells', 'routing_cells')
 REQUIRED = ('calls_judged', 'histories', 'shard_counts_seen', 'keys_cross_process', 'golden_hashes_compared',
-            'equal_key_pairs', 'check_damage_cases', 'aggregate_calls', 'partial_reopen_cases', 'handle_exchanges')
+            'equal_key_pairs', 'check_damage_cases', 'aggregate_calls', 'partial_reopen_cases', 'handle_exchanges', 'skewed_culls')
 ASSUMPTIONS = ('iteration order over shards is shard-major by design: compared as a permutation',
                'golden routing was recorded from the pinned commit by tools/mkgolden.py')
 
@@ -388,6 +388,47 @@ def partial_reopen(dc, sc, res, rng, shards, label):
         sc.drop(d)
 
 
+def skewed_cull(dc, sc, res, rng, shards, label):
+    """The size limit is divided among the shards: cull() visits every shard, also when only one of them is above its
+    share and the total is far below the limit."""
+    d = sc.new()
+    share = 96 * 1024
+    f = dc.FanoutCache(d, shards=shards, size_limit=share * shards, cull_limit=0, disk_min_file_size=64)
+    try:
+        target = rng.randrange(shards)
+        keys = [k for k in range(4000) if f.disk.hash(k) % shards == target][:rng.randrange(14, 30)]
+        for k in keys:
+            f.set(k, 'v' * 8192)
+        others = [k for k in range(4000, 4200) if f.disk.hash(k) % shards != target][:5]
+        for k in others:
+            f.set(k, 'small')
+        vols = [sh.volume() for sh in f._shards]
+        over = [i for i, v in enumerate(vols) if v > share]
+        if over != [target] or f.volume() > share * shards:
+            res.count('skewed_cull_setups_not_skewed')
+            return
+        before = len(f)
+        removed = f.cull()
+        after = [(sh.volume(), len(sh)) for sh in f._shards]
+        res.count('evaluations')
+        res.count('skewed_culls')
+        res.seen('cells', ('skewed_cull', shards, target))
+        wit = {'label': label, 'shards': shards, 'share_per_shard': share, 'volumes_before': vols, 'after': after,
+               'cull_returned': removed}
+        if any(v > share and n > 0 for v, n in after):
+            res.violation('after cull() shard(s) %r are still above their share of the size limit (%d) although they hold items' % (
+                [i for i, (v, n) in enumerate(after) if v > share and n > 0], share), wit)
+            return
+        if removed != before - len(f):
+            res.violation('cull() returned %r, %d items disappeared' % (removed, before - len(f)), wit)
+            return
+        if any(k not in f for k in others):
+            res.violation('cull() removed items of shards that were below their share', wit)
+    finally:
+        f.close()
+        sc.drop(d)
+
+
 def run_shard(tier, seed, shard, nshards, res):
     dc = common.use_repo()
     probe.install()
@@ -403,6 +444,8 @@ def run_shard(tier, seed, shard, nshards, res):
             check_damage(dc, sc, res, rng, shards, 'c13 damage seed=%d shard=%d i=%d' % (seed, shard, i))
             if shards > 1:
                 partial_reopen(dc, sc, res, rng, shards, 'c13 partial reopen seed=%d shard=%d i=%d' % (seed, shard, i))
+                probe.set_clock(None)
+                skewed_cull(dc, sc, res, rng, shards, 'c13 skewed cull seed=%d shard=%d i=%d' % (seed, shard, i))
             if res.counters.get('violations_raw', 0) > 8:
                 return
         probe.reset()
